@@ -1,7 +1,7 @@
 (* C10 — xarray operations keep a UxDataArray attached to a consistent grid. Statements only.
    c10_routes is re-measured on the installed xarray on every run (Gen/C10_route.v). *)
 From Coq Require Import String.
-From Verif Require Import Base C10 C10_route C10_proofs C10_more_proofs.
+From Verif Require Import Base C10 C10_route C10_proofs C10_more_proofs C10_reach_proofs.
 
 (* for all finite compositions (any depth) of operations whose final hook attaches the grid, and of
    uxarray's own operations: the result is a UxDataArray on a grid whose element counts equal the
@@ -64,3 +64,36 @@ Print Assumptions C10_griddim_index_refuted.
 Theorem C10_gridless_route_refuted : forall sz v o, c10_consistent sz (c10_step sz v (XOp HInit o)) = false.
 Proof. exact gridless_route_refuted. Qed.
 Print Assumptions C10_gridless_route_refuted.
+
+(* every REACHABLE intermediate value, not only the final one: after any prefix of an admissible program the value is a
+   UxDataArray on a grid whose element counts equal the lengths of its element dimensions *)
+Theorem C10_closure_every_prefix : forall sz prog v n,
+  c10_consistent sz v = true -> forallb c10_op_ok prog = true ->
+  c10_consistent sz (c10_eval sz (firstn n prog) v) = true.
+Proof. exact closure_prefixes. Qed.
+Print Assumptions C10_closure_every_prefix.
+
+(* no admissible operation creates an element dimension ... *)
+Theorem C10_element_dims_never_created : forall sz v op, c10_op_ok op = true ->
+  (length (griddims (v_dims (c10_step sz v op))) <= length (griddims (v_dims v)))%nat.
+Proof. exact griddims_never_created. Qed.
+Print Assumptions C10_element_dims_never_created.
+
+(* ... hence a value with one element dimension never comes to carry two, at any depth *)
+Theorem C10_element_dims_bounded : forall sz prog v, forallb c10_op_ok prog = true ->
+  (length (griddims (v_dims (c10_eval sz prog v))) <= length (griddims (v_dims v)))%nat.
+Proof. exact griddims_bounded_by_start. Qed.
+Print Assumptions C10_element_dims_bounded.
+
+(* the dims of an xarray operation's result are those plain xarray computes, whichever hook builds the object *)
+Theorem C10_xop_dims_as_plain : forall sz v h o, v_dims (c10_step sz v (XOp h o)) = c10_apply_dimop o (v_dims v).
+Proof. exact xop_dims_as_plain. Qed.
+Print Assumptions C10_xop_dims_as_plain.
+
+(* integrate: same grid object, the face dimension gone, every other dimension kept *)
+Theorem C10_integrate_drops_face : forall sz v,
+  v_grid (c10_step sz v UIntegrate) = v_grid v /\
+  (forall n, ~ In (2, n)%Z (v_dims (c10_step sz v UIntegrate))) /\
+  (forall d n, d <> 2%Z -> (In (d, n) (v_dims (c10_step sz v UIntegrate)) <-> In (d, n) (v_dims v))).
+Proof. exact integrate_drops_face. Qed.
+Print Assumptions C10_integrate_drops_face.
